@@ -21,6 +21,30 @@ import (
 
 func TestMain(m *testing.M) { h.Main(m) }
 
+// memSel: selectors of in-memory re-rootings applied to the trees after parsing (set from the
+// case at the start of each check; cases are evaluated one at a time). The oracles of this
+// property do not depend on the rooting, but a tree re-rooted in memory is in a state (parent not
+// first among a node's neighbours) that no freshly parsed tree has.
+var memSel []int
+
+func mem(i int) int {
+	if len(memSel) == 0 {
+		return 0
+	}
+	return memSel[i%len(memSel)]
+}
+
+func parseMem(m *ref.Node, i int) (*tree.Tree, error) {
+	t, err := gt.FromModel(m)
+	if err != nil {
+		return nil, err
+	}
+	if err := gt.RerootInMemory(t, mem(i)); err != nil {
+		return nil, fmt.Errorf("Reroot failed: %v", err)
+	}
+	return t, nil
+}
+
 type Case struct {
 	Ref     *ref.Node   `json:"ref"`
 	RefAlt  *ref.Node   `json:"ref_alt"` // another presentation of ref
@@ -29,6 +53,7 @@ type Case struct {
 	Classes []string    `json:"classes"`
 	Tips    bool        `json:"tips"`
 	Ident   bool        `json:"identical_only"`
+	Mem     []int       `json:"mem,omitempty"` // in-memory re-rootings of the parsed trees (0 = none)
 }
 
 func baseOpts(thorough bool) gen.Opts {
@@ -92,13 +117,16 @@ func genCase(t *rapid.T, thorough bool) Case {
 		c.CompAlt = append(c.CompAlt, gen.Represent(t, m))
 		c.Classes = append(c.Classes, class)
 	}
+	if rapid.Bool().Draw(t, "mem") {
+		c.Mem = rapid.SliceOfN(rapid.IntRange(0, 50), 1, 6).Draw(t, "memsel")
+	}
 	return c
 }
 
 func feed(models []*ref.Node) (<-chan tree.Trees, error) {
 	ch := make(chan tree.Trees, len(models))
 	for i, m := range models {
-		t, err := gt.FromModel(m)
+		t, err := parseMem(m, i+1)
 		if err != nil {
 			return nil, err
 		}
@@ -167,7 +195,7 @@ func sorted(x []float64) []float64 {
 }
 
 func runCompare(refm *ref.Node, comps []*ref.Node, tips, ident bool) (map[int]tree.BipartitionStats, error) {
-	rt, err := gt.FromModel(refm)
+	rt, err := parseMem(refm, 0)
 	if err != nil {
 		return nil, err
 	}
@@ -193,7 +221,7 @@ func runCompare(refm *ref.Node, comps []*ref.Node, tips, ident bool) (map[int]tr
 }
 
 func runWeighted(refm *ref.Node, comps []*ref.Node, tips, ident bool) (map[int]tree.WeightedBipartitionStats, error) {
-	rt, err := gt.FromModel(refm)
+	rt, err := parseMem(refm, 0)
 	if err != nil {
 		return nil, err
 	}
@@ -216,6 +244,8 @@ func runWeighted(refm *ref.Node, comps []*ref.Node, tips, ident bool) (map[int]t
 }
 
 func check(c Case) error {
+	memSel = c.Mem
+	defer func() { memSel = nil }()
 	tx, err := ref.NewTaxa(c.Ref.Tips())
 	if err != nil {
 		return err
@@ -266,8 +296,8 @@ func check(c Case) error {
 			return fmt.Errorf("swapping the trees does not swap the counts: (%d,%d,%d,%v) vs swapped (%d,%d,%d,%v)%s", g.Tree1, g.Common, g.Tree2, g.Sametree, s.Tree1, s.Common, s.Tree2, s.Sametree, ctx(i))
 		}
 		// pairwise variant
-		rt, _ := gt.FromModel(c.Ref)
-		ct, _ := gt.FromModel(comp)
+		rt, _ := parseMem(c.Ref, 0)
+		ct, _ := parseMem(comp, i+1)
 		rt.ReinitIndexes()
 		ct.ReinitIndexes()
 		t1, common, err := rt.CommonEdges(ct, c.Tips)
